@@ -96,6 +96,8 @@ pub struct Built<H> {
     pub heur_calls: usize,
     pub n_patterns: usize,
     pub present: Vec<bool>,
+    /// structural defect found by the direct (Rust-side) reading of C09, if any
+    pub wf_problem: Option<String>,
     pub run: Box<dyn Fn(&H) -> Option<Vec<(usize, S)>>>,
 }
 
@@ -165,6 +167,116 @@ pub fn dump_s<K>(root: usize, dump: &[StateDump<K, CharacterPredicate>], kf: &im
             ])
         }),
     ])
+}
+
+/// C09 read directly off the dump (independent of the Coq checker).
+pub fn wf_oracle<K: Eq + Clone + std::fmt::Debug, P: Clone>(
+    root: usize,
+    dump: &[StateDump<K, P>],
+    req: &impl Fn(&K) -> Vec<K>,
+    ids: &[usize],
+) -> Option<String> {
+    use std::collections::{BTreeMap, BTreeSet};
+    let by_id: BTreeMap<usize, &StateDump<K, P>> = dump.iter().map(|s| (s.id, s)).collect();
+    if by_id.len() != dump.len() {
+        return Some("duplicate state ids".into());
+    }
+    if !by_id.contains_key(&root) {
+        return Some("the root is not a state".into());
+    }
+    // reachability
+    let mut seen = BTreeSet::from([root]);
+    let mut todo = vec![root];
+    while let Some(s) = todo.pop() {
+        for e in &by_id[&s].outgoing {
+            if !by_id.contains_key(&e.target) {
+                return Some(format!("transition {} of state {} ends on a missing state", e.id, s));
+            }
+            if seen.insert(e.target) {
+                todo.push(e.target);
+            }
+        }
+    }
+    let unreachable: Vec<usize> = dump.iter().map(|s| s.id).filter(|i| !seen.contains(i)).collect();
+    if !unreachable.is_empty() {
+        return Some(format!("states {:?} are not reachable from the root", unreachable));
+    }
+    // acyclicity (Kahn)
+    let mut indeg: BTreeMap<usize, usize> = dump.iter().map(|s| (s.id, 0)).collect();
+    for s in dump {
+        for e in &s.outgoing {
+            *indeg.get_mut(&e.target).unwrap() += 1;
+        }
+    }
+    let mut ready: Vec<usize> = indeg.iter().filter(|(_, d)| **d == 0).map(|(i, _)| *i).collect();
+    let mut n_done = 0;
+    while let Some(s) = ready.pop() {
+        n_done += 1;
+        for e in &by_id[&s].outgoing {
+            let d = indeg.get_mut(&e.target).unwrap();
+            *d -= 1;
+            if *d == 0 {
+                ready.push(e.target);
+            }
+        }
+    }
+    if n_done != dump.len() {
+        return Some("the transition graph has a cycle".into());
+    }
+    let ordered = |l: &[K]| -> bool {
+        for (i, k) in l.iter().enumerate() {
+            if l[..i].contains(k) || !req(k).iter().all(|r| l[..i].contains(r)) {
+                return false;
+            }
+        }
+        true
+    };
+    for s in dump {
+        if s.epsilon_order.len() > 1 {
+            return Some(format!("state {} has {} fallback transitions", s.id, s.epsilon_order.len()));
+        }
+        if s.outgoing.iter().any(|e| e.target == s.id) {
+            return Some(format!("state {} has a transition to itself", s.id));
+        }
+        let mut cons_ids: Vec<usize> = s.outgoing.iter().filter(|e| e.constraint.is_some()).map(|e| e.id).collect();
+        let mut eps_ids: Vec<usize> = s.outgoing.iter().filter(|e| e.constraint.is_none()).map(|e| e.id).collect();
+        let mut co = s.constraint_order.clone();
+        let mut eo = s.epsilon_order.clone();
+        cons_ids.sort();
+        eps_ids.sort();
+        co.sort();
+        eo.sort();
+        if co != cons_ids || eo != eps_ids {
+            return Some(format!("state {}: the transition orderings {:?} / {:?} do not list exactly the outgoing transitions {:?} / {:?}", s.id, s.constraint_order, s.epsilon_order, cons_ids, eps_ids));
+        }
+        if !ordered(&s.scope) {
+            return Some(format!("state {}: scope {:?} is not prerequisite-first", s.id, s.scope));
+        }
+        for (p, ks) in &s.matches {
+            if !ordered(ks) {
+                return Some(format!("state {}: keys {:?} recorded for pattern {} are not prerequisite-first", s.id, ks, p.0));
+            }
+        }
+    }
+    for i in ids {
+        if !dump.iter().any(|s| s.matches.iter().any(|(p, _)| p.0 == *i)) {
+            return Some(format!("pattern {} is accepted by no state", i));
+        }
+    }
+    None
+}
+
+pub fn scope_covers<K: Eq + Clone + std::fmt::Debug>(dump: &[StateDump<K, CharacterPredicate>]) -> Option<String> {
+    for s in dump {
+        for e in &s.outgoing {
+            if let Some(c) = &e.constraint {
+                if let Some(k) = c.required_bindings().iter().find(|k| !s.scope.contains(k)) {
+                    return Some(format!("state {}: key {:?} of an outgoing constraint is not in the scope {:?}", s.id, k, s.scope));
+                }
+            }
+        }
+    }
+    None
 }
 
 // ------------------------------------------------------------------ strings
@@ -266,9 +378,14 @@ impl Dom for StrDom {
         let m: StringManyMatcher =
             catch(move || StringManyMatcher::try_from_patterns_with_det_heuristic(patterns, PatternFallback::Fail, h))?.ok()?;
         let aut = m.verif_automaton();
-        let dump = dump_s(aut.verif_root(), &aut.verif_dump(), &skey_s);
+        let raw = aut.verif_dump();
+        let dump = dump_s(aut.verif_root(), &raw, &skey_s);
         let n = pats.len();
+        let ids: Vec<usize> = (0..n).collect();
+        let sreq = |k: &StringPatternPosition| if Into::<usize>::into(*k) == 0 { vec![] } else { vec![StringPatternPosition::start()] };
+        let wf_problem = wf_oracle(aut.verif_root(), &raw, &sreq, &ids).or_else(|| scope_covers(&raw));
         Some(Built {
+            wf_problem,
             dump,
             n_states: m.n_states(),
             dot: m.dot_string(),
@@ -467,9 +584,14 @@ impl Dom for MatDom {
         let m: MatrixManyMatcher =
             catch(move || MatrixManyMatcher::try_from_patterns_with_det_heuristic(patterns, PatternFallback::Fail, h))?.ok()?;
         let aut = m.verif_automaton();
-        let dump = dump_s(aut.verif_root(), &aut.verif_dump(), &mkey_s);
+        let raw = aut.verif_dump();
+        let dump = dump_s(aut.verif_root(), &raw, &mkey_s);
         let n = pats.len();
+        let ids: Vec<usize> = (0..n).collect();
+        let mreq = |k: &MatrixPatternPosition| if *k == MatrixPatternPosition::start() { vec![] } else { vec![MatrixPatternPosition::start()] };
+        let wf_problem = wf_oracle(aut.verif_root(), &raw, &mreq, &ids).or_else(|| scope_covers(&raw));
         Some(Built {
+            wf_problem,
             dump,
             n_states: m.n_states(),
             dot: m.dot_string(),
